@@ -56,8 +56,8 @@ func c10Gen(c *vfCtx, emit func(c10Case)) {
 		if !c.thorough() && (len(sub) == 4 && si%16 != 0 || len(sub) == 3 && si%2 != 0) {
 			continue
 		}
-		if c.thorough() && len(sub) == 5 && si%6 != 0 {
-			continue
+		if c.thorough() && (len(sub) == 5 && si%40 != 0 || len(sub) == 4 && si%4 != 0) {
+			continue // measured: all 4- and 5-subsets with every permutation do not finish within the deadline
 		}
 		var ids []string
 		names := map[string]int{} // test name -> max ordinal present
